@@ -77,7 +77,7 @@ def view(case):
 
 
 def campaigns(tier: str) -> List[Campaign]:
-    return [Campaign("overlap", interval_case(weights=(5, 5, 1, 1), force_comm=True), check, quick=480, thorough=24000,
+    return [Campaign("overlap", interval_case(weights=(5, 5, 1, 1), force_comm=True, unrounded=True), check, quick=480, thorough=24000,
                      quick_shards=8,
                      required_classes={"shared_endpoint": 0.3, "partial": 0.15, "touching": 0.05, "zero_length": 0.05,
                                        "multi_rank": 0.1},
